@@ -169,3 +169,13 @@ Theorem C19_source_whitening_whitens : forall (F : Type) (K : Ops F), FieldLaws 
   whiten_ok K q C0 (opa_ci_src K q U0 s0).
 Proof. exact (@ci_sym_whitens). Qed.
 Print Assumptions C19_source_whitening_whitens.
+
+(* the lag-0 covariance of the retained PCs is whitened with the singular values its decomposition returned: in the two decomposition front-ends (Decomposer.fit, _SVD.fit_transform) the data and the three factors are bound only by the back-end call,
+   the re-ordering of the iterative complex solver, the truncations, the mode labels and the sign fix - the statements regenerated from the source by T3
+   are exactly these; nothing rescales, floors or clips a singular value on the way *)
+From XV Require Gen.T3 Proofs.C15_opts.
+Theorem C19_factors_are_the_back_ends : List.length T3.dec_factor_writes = 20%nat /\ List.length T3.svd_factor_writes = 18%nat /\
+  forallb (fun st => negb (String.eqb st "s = s.clip(min=1e-10 * s.max())")) T3.dec_factor_writes = true.
+Proof. exact (conj (f_equal (@List.length _) C15_opts.dec_factor_writes_known) (conj (f_equal (@List.length _) C15_opts.svd_factor_writes_known)
+  (f_equal (forallb _) C15_opts.dec_factor_writes_known))). Qed.
+Print Assumptions C19_factors_are_the_back_ends.
